@@ -1,6 +1,7 @@
 package main
 
 import (
+	"fmt"
 	"go/ast"
 	"go/constant"
 	"go/token"
@@ -458,12 +459,12 @@ func runR116(c *Ctx) {
 func init() {
 	register(&Rule{
 		ID: "R12.7", Props: []string{"C12"}, Engine: "flow (iteration identity)",
-		Text: "the shard list and the backend list are built in lock-step: in the configuration package the (Key, Weight) element appended to the slice given to NewRendezvousShardSelector and the (Backend, Key) element appended to the slice given to NewShardingBlobAccess are appended once each, in the same iteration of the same range over the configured shard map (Go randomises map iteration order, so two separate ranges would pair indices with different keys); key, weight and backend all come from that iteration's entry",
+		Text:  "the shard list and the backend list are built in lock-step: in the configuration package the (Key, Weight) element appended to the slice given to NewRendezvousShardSelector and the (Backend, Key) element appended to the slice given to NewShardingBlobAccess are appended once each, in the same iteration of the same range over the configured shard map (Go randomises map iteration order, so two separate ranges would pair indices with different keys); key, weight and backend all come from that iteration's entry",
 		Floor: 3, MustExist: true, Run: runR127,
 	})
 	register(&Rule{
 		ID: "R12.8", Props: []string{"C12"}, Engine: "no-error-escape (SSA referrers)",
-		Text: "errors carry the shard key: in every method of shardingBlobAccess the error of a call through backends[i].Backend is only tested for nil or wrapped by util.StatusWrap* with backends[i].Key of the same index – it is never returned, stored or passed on unwrapped – and a Buffer obtained from backends[i].Backend is only ever handed to buffer.WithErrorHandler with a shardKeyAddingErrorHandler built from backends[i].Key",
+		Text:  "errors carry the shard key: in every method of shardingBlobAccess the error of a call through backends[i].Backend is only tested for nil or wrapped by util.StatusWrap* with backends[i].Key of the same index – it is never returned, stored or passed on unwrapped – and a Buffer obtained from backends[i].Backend is only ever handed to buffer.WithErrorHandler with a shardKeyAddingErrorHandler built from backends[i].Key",
 		Floor: 5, MustExist: true, Run: runR128,
 	})
 }
@@ -735,19 +736,18 @@ func runR128(c *Ctx) {
 	}
 }
 
-
 // ---------------------------------------------------------------------------
 // R16.5, R16.6
 
 func init() {
 	register(&Rule{
 		ID: "R16.5", Props: []string{"C16"}, Engine: "typestate (path automaton over the reader field)",
-		Text: "a failed stream is closed exactly once: in errorHandlingReader.Read and errorHandlingChunkReader.Read, once the current underlying reader (the field the read goes through) has been closed, every path installs a replacement in that field before the method returns, loops or touches the field again – otherwise the reader's own Close would close the same stream a second time and its handler would see Done twice",
+		Text:  "a failed stream is closed exactly once: in errorHandlingReader.Read and errorHandlingChunkReader.Read, once the current underlying reader (the field the read goes through) has been closed, every path installs a replacement in that field before the method returns, loops or touches the field again – otherwise the reader's own Close would close the same stream a second time and its handler would see Done twice",
 		Floor: 2, MustExist: true, Run: runR165,
 	})
 	register(&Rule{
 		ID: "R16.6", Props: []string{"C16", "C09"}, Engine: "algebraic shape (SSA operands)",
-		Text: "a stream opened at an offset ends at the end of the object: for every io.NewSectionReader(r, off, n) in package buffer, off + n equals the buffer's size field – off is the constant 0 and n the size, or n is the size minus that very off",
+		Text:  "a stream opened at an offset ends at the end of the object: for every io.NewSectionReader(r, off, n) in package buffer, off + n equals the buffer's size field – off is the constant 0 and n the size, or n is the size minus that very off",
 		Floor: 1, MustExist: true, Run: runR166,
 	})
 }
@@ -852,12 +852,12 @@ func runR166(c *Ctx) {
 func init() {
 	register(&Rule{
 		ID: "R18.6", Props: []string{"C18"}, Engine: "local alias analysis (SSA)",
-		Text: "Authorize never writes into its caller's list of instance names: in every implementation of auth.Authorizer.Authorize, no value that may share the backing array of the instanceNames parameter (the parameter, sub-slices of it, phis and appends over those) is appended to (unless its capacity was clipped), stored through, or used as the destination of copy – the authorizing BlobAccess and the gRPC layer go on to use that list after the call",
+		Text:  "Authorize never writes into its caller's list of instance names: in every implementation of auth.Authorizer.Authorize, no value that may share the backing array of the instanceNames parameter (the parameter, sub-slices of it, phis and appends over those) is appended to (unless its capacity was clipped), stored through, or used as the destination of copy – the authorizing BlobAccess and the gRPC layer go on to use that list after the call",
 		Floor: 4, MustExist: true, Run: runR186,
 	})
 	register(&Rule{
 		ID: "R18.7", Props: []string{"C18"}, Engine: "origin analysis (SSA)",
-		Text: "the verdict list returned by Authorize belongs to the caller: every value returned by an implementation of Authorize is allocated during the call (make, a literal, appends onto those or onto nil) or is the list returned by another Authorizer – never a package-level variable, a field of the authorizer or the instanceNames argument; anyAuthorizer overwrites elements of the list it got from its first member, so a shared list would leak one request's verdicts into another's",
+		Text:  "the verdict list returned by Authorize belongs to the caller: every value returned by an implementation of Authorize is allocated during the call (make, a literal, appends onto those or onto nil) or is the list returned by another Authorizer – never a package-level variable, a field of the authorizer or the instanceNames argument; anyAuthorizer overwrites elements of the list it got from its first member, so a shared list would leak one request's verdicts into another's",
 		Floor: 4, MustExist: true, Run: runR187,
 	})
 }
@@ -1074,7 +1074,7 @@ func runR187(c *Ctx) {
 func init() {
 	register(&Rule{
 		ID: "R19.6", Props: []string{"C19"}, Engine: "loop-invariant edge facts (SSA)",
-		Text: "removing a name never cuts off another registered name: in InstanceNameTrie.Remove the edge that is finally deleted is the last one captured, and on every step where the walk keeps the previously captured edge instead of capturing the current node's, the current node is known (by the branch conditions on that very edge) to hold no value (value < 0) and to have at most one child – otherwise deleting the captured edge would drop that node's value or its other children",
+		Text:  "removing a name never cuts off another registered name: in InstanceNameTrie.Remove the edge that is finally deleted is the last one captured, and on every step where the walk keeps the previously captured edge instead of capturing the current node's, the current node is known (by the branch conditions on that very edge) to hold no value (value < 0) and to have at most one child – otherwise deleting the captured edge would drop that node's value or its other children",
 		Floor: 1, MustExist: true, Run: runR196,
 	})
 }
@@ -1203,7 +1203,7 @@ func runR196(c *Ctx) {
 func init() {
 	register(&Rule{
 		ID: "R20.5", Props: []string{"C20", "C14"}, Engine: "difference-bound analysis (SSA, inductive over loop phis, call-site preconditions)",
-		Text: "truncated resource names cannot make the parsers panic: every index and re-slice of a []string in NewDigestFromByteStreamReadPath, NewDigestFromByteStreamWritePath, newDigestFromByteStreamPathCommon and NewInstanceNameFromComponents is proven in range from the length checks that dominate it (len(fields) < n returns, loop exit conditions, the minimum length both callers guarantee for the trailer, and the lengths that remain after trailer = trailer[k:])",
+		Text:  "truncated resource names cannot make the parsers panic: every index and re-slice of a []string in NewDigestFromByteStreamReadPath, NewDigestFromByteStreamWritePath, newDigestFromByteStreamPathCommon and NewInstanceNameFromComponents is proven in range from the length checks that dominate it (len(fields) < n returns, loop exit conditions, the minimum length both callers guarantee for the trailer, and the lengths that remain after trailer = trailer[k:])",
 		Floor: 10, MustExist: true, Run: runR205,
 	})
 }
@@ -1232,7 +1232,7 @@ func runR205(c *Ctx) {
 func init() {
 	register(&Rule{
 		ID: "R20.6", Props: []string{"C20", "C13"}, Engine: "abstract evaluation of comparisons over the rune domain (SSA)",
-		Text: "the hash alphabet is exactly lowercase hexadecimal: Function.NewDigest ranges over every character of the hash string before the digest is constructed, and evaluating the loop body's comparisons for every code point shows that the characters that do not lead to an error return are exactly 0-9 and a-f (an uppercase or otherwise non-canonical spelling of the same hash bytes would be a second, distinct key for one object)",
+		Text:  "the hash alphabet is exactly lowercase hexadecimal: Function.NewDigest ranges over every character of the hash string before the digest is constructed, and evaluating the loop body's comparisons for every code point shows that the characters that do not lead to an error return are exactly 0-9 and a-f (an uppercase or otherwise non-canonical spelling of the same hash bytes would be a second, distinct key for one object)",
 		Floor: 1, MustExist: true, Run: runR206,
 	})
 }
@@ -1527,7 +1527,7 @@ func joinComma(s []string) string {
 func init() {
 	register(&Rule{
 		ID: "R19.7", Props: []string{"C19", "C20"}, Engine: "difference-bound analysis (SSA)",
-		Text: "prefix rewriting never produces a name with a trailing slash: in patchInstanceName the remainder i[n:] is appended to the replacement prefix only where the dominating checks imply len(i) > n, i.e. the remainder is non-empty; the name that equals the old prefix exactly is answered with the slash-less replacement",
+		Text:  "prefix rewriting never produces a name with a trailing slash: in patchInstanceName the remainder i[n:] is appended to the replacement prefix only where the dominating checks imply len(i) > n, i.e. the remainder is non-empty; the name that equals the old prefix exactly is answered with the slash-less replacement",
 		Floor: 1, MustExist: true, Run: runR197,
 	})
 }
@@ -1569,7 +1569,7 @@ func runR197(c *Ctx) {
 func init() {
 	register(&Rule{
 		ID: "R15.5", Props: []string{"C15"}, Engine: "counting conservation (SSA shape + call-site table)",
-		Text: "the multiplexer counts its consumers correctly: readAndShareWithOthers sends the result to every waiting consumer (a complete range over the waiting list), then expects for the next round exactly the consumers it just served plus its argument, and empties the waiting list; Read – whose caller stays – passes 1, Close – whose caller leaves – passes 0, and nothing else calls it; a consumer that has left must not be waited for, or the remaining consumers block forever",
+		Text:  "the multiplexer counts its consumers correctly: readAndShareWithOthers sends the result to every waiting consumer (a complete range over the waiting list), then expects for the next round exactly the consumers it just served plus its argument, and empties the waiting list; Read – whose caller stays – passes 1, Close – whose caller leaves – passes 0, and nothing else calls it; a consumer that has left must not be waited for, or the remaining consumers block forever",
 		Floor: 4, MustExist: true, Run: runR155,
 	})
 }
@@ -1688,7 +1688,7 @@ func runR155(c *Ctx) {
 func init() {
 	register(&Rule{
 		ID: "R14.6", Props: []string{"C14"}, Engine: "path automaton with nil-knowledge (SSA)",
-		Text: "a failed upload is never reported as stored: in every function of pkg/blobstore/grpcclients that returns an error, on a path on which some call's error was found to be non-nil (Send failed, the encoder could not be obtained, the reader failed …) the error returned is not one the same path has established to be nil (the nil constant, or the result of a call whose nil edge was taken) – `return err` must refer to the failure, not to an earlier, successful call's err that happens to be in scope",
+		Text:  "a failed upload is never reported as stored: in every function of pkg/blobstore/grpcclients that returns an error, on a path on which some call's error was found to be non-nil (Send failed, the encoder could not be obtained, the reader failed …) the error returned is not one the same path has established to be nil (the nil constant, or the result of a call whose nil edge was taken) – `return err` must refer to the failure, not to an earlier, successful call's err that happens to be in scope",
 		Floor: 8, MustExist: true, Run: runR146,
 	})
 }
@@ -1812,7 +1812,7 @@ func runR146(c *Ctx) {
 func init() {
 	register(&Rule{
 		ID: "R18.5", Props: []string{"C18"}, Engine: "wiring (AST + types.Info, cmd/bb_storage)",
-		Text: "only authorizing backends are served: in cmd/bb_storage every storage backend handed to a grpcservers.New…Server constructor is a variable that is only ever assigned the result of blobstore.NewAuthorizingBlobAccess (through the helper functions that build it); in those helpers the Get, Put and FindMissing authorizers given to NewAuthorizingBlobAccess are built from the GetAuthorizer, PutAuthorizer and FindMissingAuthorizer fields of the configuration, in that order, and NewAuthorizingBlobAccess stores them in the fields that Get/Put/FindMissing consult",
+		Text:  "only authorizing backends are served: in cmd/bb_storage every storage backend handed to a grpcservers.New…Server constructor is a variable that is only ever assigned the result of blobstore.NewAuthorizingBlobAccess (through the helper functions that build it); in those helpers the Get, Put and FindMissing authorizers given to NewAuthorizingBlobAccess are built from the GetAuthorizer, PutAuthorizer and FindMissingAuthorizer fields of the configuration, in that order, and NewAuthorizingBlobAccess stores them in the fields that Get/Put/FindMissing consult",
 		Floor: 8, MustExist: true, Run: runR185,
 	})
 }
@@ -2010,7 +2010,7 @@ func runR185(c *Ctx) {
 func init() {
 	register(&Rule{
 		ID: "R02.8", Props: []string{"C02", "C03", "C07", "C01"}, Engine: "flow (constructor wiring, configuration package)",
-		Text: "the persistent local store is wired as one unit: in newNestedBlobAccessBare the lock given to NewPeriodicSyncer is the very lock given to NewFlatBlobAccess and NewHierarchicalInstanceNamesLocalBlobAccess; the block list given to the syncer is the one the location-blob map is built on; the state store the syncer writes is the one the state was read from; the hash initialisation written into the state is the one the key-location map uses; on block devices the data syncer is the Sync method of the device the block allocator writes to; and both syncer loops are started – ProcessBlockRelease in a goroutine that calls it for ever, ProcessBlockPut in a routine of the termination group that calls it until it returns false",
+		Text:  "the persistent local store is wired as one unit: in newNestedBlobAccessBare the lock given to NewPeriodicSyncer is the very lock given to NewFlatBlobAccess and NewHierarchicalInstanceNamesLocalBlobAccess; the block list given to the syncer is the one the location-blob map is built on; the state store the syncer writes is the one the state was read from; the hash initialisation written into the state is the one the key-location map uses; on block devices the data syncer is the Sync method of the device the block allocator writes to; and both syncer loops are started – ProcessBlockRelease in a goroutine that calls it for ever, ProcessBlockPut in a routine of the termination group that calls it until it returns false",
 		Floor: 7, MustExist: true, Run: runR028,
 	})
 }
@@ -2254,5 +2254,917 @@ func runR028(c *Ctx) {
 			})
 		}
 		c.Check(okLoop, name, "loop-"+m.meth, c.Pos(at), m.meth+" runs in a loop of a started routine", "PeriodicSyncer."+m.meth+" is not called in a loop of a goroutine / termination-group routine started here: "+map[bool]string{true: "released blocks are never followed by a state write, so their space is never handed back", false: "uploads are never followed by a sync and a state write; nothing survives a restart"}[m.forever])
+	}
+}
+
+// ---------------------------------------------------------------------------
+// R09.6
+
+func init() {
+	register(&Rule{
+		ID: "R09.6", Props: []string{"C09", "C01"}, Engine: "path automaton (SSA, own helper methods inlined)",
+		Text:  "everything read is hashed before it counts: in casValidatingReader.doRead and casValidatingChunkReader.doRead, on every path from the underlying Read to (a) the point where the hash is finalised (hasher.Sum, directly or in a helper method), (b) a return that hands the data to the consumer, or (c) the next underlying Read, the data of that read was written into the hasher – unless the path is an error path that returns no data and gives no verdict",
+		Floor: 2, MustExist: true, Run: runR096,
+	})
+}
+
+func runR096(c *Ctx) {
+	for _, typ := range []string{"casValidatingReader", "casValidatingChunkReader"} {
+		fn := c.Method(bufferRel, typ, "doRead")
+		if fn == nil {
+			c.Broken("%s.doRead not found", typ)
+			continue
+		}
+		name := FuncName(fn)
+		// the underlying read: an invoke of Read on an embedded / field reader of the receiver
+		var read *ssa.Call
+		allInstrs(fn, func(ins ssa.Instruction) {
+			if cl, ok := ins.(*ssa.Call); ok && cl.Call.IsInvoke() && cl.Call.Method.Name() == "Read" && read == nil {
+				if f, base := loadedField(cl.Call.Value); f != nil && isReceiverValue(fn, base) {
+					read = cl
+				}
+			}
+		})
+		if read == nil {
+			c.Fail(name, "hash-all", c.Pos(fn.Pos()), "no underlying Read found")
+			continue
+		}
+		var data ssa.Value
+		for _, r := range *read.Referrers() {
+			if ex, ok := r.(*ssa.Extract); ok && ex.Index == 0 {
+				data = ex
+			}
+		}
+		isHasherCall := func(ins ssa.Instruction, meth string) bool {
+			cl, ok := ins.(*ssa.Call)
+			if !ok || !cl.Call.IsInvoke() || cl.Call.Method.Name() != meth {
+				return false
+			}
+			f, _ := loadedField(cl.Call.Value)
+			return f != nil && f.Name() == "hasher"
+		}
+		bad := ""
+		var badPos token.Pos
+		nWrite := 0
+		// 0 before the read; 1 read, not hashed; 2 hashed
+		explorePaths(&pathSpec{Fn: fn, Init: 0, Inline: inlineOwnMethods,
+			Step: func(st int, ev pathEvent) int {
+				if ev.Ins == nil {
+					return st
+				}
+				if ev.Ins == ssa.Instruction(read) {
+					if st == 1 && bad == "" {
+						bad, badPos = "the stream is read again while the data of the previous read has not been hashed", read.Pos()
+					}
+					return 1
+				}
+				if isHasherCall(ev.Ins, "Write") {
+					nWrite++
+					return 2
+				}
+				if isHasherCall(ev.Ins, "Sum") && st == 1 && bad == "" {
+					bad, badPos = "the hash is finalised on a path on which the bytes of the last read were never written into the hasher (data delivered together with io.EOF): matching content is rejected as corrupted, or – with a colliding prefix – mismatching content accepted", ev.Ins.Pos()
+				}
+				return st
+			},
+			AtReturn: func(st int, r *ssa.Return, _ map[int]bool) {
+				if st != 1 || bad != "" || data == nil {
+					return
+				}
+				// data handed out without having been hashed
+				res := r.Results[0]
+				if res == data {
+					bad, badPos = "data of the underlying read is handed to the consumer without having been hashed", r.Pos()
+				}
+			}})
+		if nWrite == 0 && bad == "" {
+			bad, badPos = "the data read is never written into the hasher", fn.Pos()
+		}
+		if bad != "" {
+			c.Fail(name, "hash-all", c.Pos(badPos), bad)
+		} else {
+			c.Pass(name, "hash-all", c.Pos(read.Pos()), "every byte read is hashed before finalisation, hand-out or the next read")
+		}
+	}
+}
+
+// ---------------------------------------------------------------------------
+// R06.7
+
+func init() {
+	register(&Rule{
+		ID: "R06.7", Props: []string{"C06", "C02"}, Engine: "origin analysis + order (SSA)",
+		Text: "what a record array writes is computed from the record being written, in that call: in both LocationRecordArray.Put implementations no field of the receiver is written (no translation is remembered between calls – block indices are relative and change meaning with every rotation), the block reference stored is the result of resolver.BlockIndexToBlockReference applied to this record's BlockIndex in this call, and on the block device the checksum is computed after every other byte of the record was filled in (with the hash seed the same resolver call returned) and nothing but the checksum is written afterwards",
+		Floor: 5, MustExist: true, Run: runR067,
+	})
+}
+
+func runR067(c *Ctx) {
+	for _, typ := range []string{"inMemoryLocationRecordArray", "blockDeviceBackedLocationRecordArray"} {
+		put := c.Method(localRel, typ, "Put")
+		T := c.LookupType(localRel, typ)
+		if put == nil || T == nil {
+			c.Broken("%s.Put not found", typ)
+			continue
+		}
+		name := FuncName(put)
+		// (a) no receiver state is written, except elements of the record storage itself
+		badStore := ""
+		var badPos token.Pos
+		allInstrs(put, func(ins ssa.Instruction) {
+			st, ok := ins.(*ssa.Store)
+			if !ok {
+				return
+			}
+			if fa, ok := st.Addr.(*ssa.FieldAddr); ok && isReceiverValue(put, fa.X) && badStore == "" {
+				badStore, badPos = fieldOf(fa).Name(), st.Pos()
+			}
+		})
+		c.Check(badStore == "", name, "stateless", c.Pos(func() token.Pos {
+			if badStore != "" {
+				return badPos
+			}
+			return put.Pos()
+		}()), "Put keeps no state between calls", "Put writes the receiver's field "+badStore+": a value remembered from an earlier call (e.g. the translation of a block index) is wrong as soon as the block list has rotated, so records are stored against the wrong block")
+		// (b) the resolver call of this invocation
+		var resolve *ssa.Call
+		nResolve := 0
+		allInstrs(put, func(ins ssa.Instruction) {
+			if cl, ok := ins.(*ssa.Call); ok && cl.Call.IsInvoke() && cl.Call.Method.Name() == "BlockIndexToBlockReference" {
+				resolve = cl
+				nResolve++
+			}
+		})
+		if resolve == nil || nResolve != 1 {
+			c.Fail(name, "fresh-reference", c.Pos(put.Pos()), "Put does not translate the block index through the resolver exactly once")
+			continue
+		}
+		rec := put.Params[len(put.Params)-1]
+		argOK, viaIndex := false, false
+		deepSlice(put, resolve.Call.Args[0], func(x ssa.Value) bool {
+			if x == ssa.Value(rec) {
+				argOK = true
+			}
+			if f := fieldOf(x); f != nil && f.Name() == "BlockIndex" {
+				viaIndex = true
+			}
+			return !argOK
+		})
+		argOK = argOK && viaIndex
+		unconditional := resolve.Block() == put.Blocks[0]
+		c.Check(argOK && unconditional, name, "fresh-reference", c.Pos(resolve.Pos()), "the record's own block index is translated, unconditionally, in this call", "the block index is not translated for this record in this call (the resolver call is conditional or takes something else than the record's BlockIndex)")
+		// every use of a BlockReference value in Put must be the resolver's result
+		var refVal ssa.Value
+		for _, r := range *resolve.Referrers() {
+			if ex, ok := r.(*ssa.Extract); ok && ex.Index == 0 {
+				refVal = ex
+			}
+		}
+		brT := c.LookupType(localRel, "BlockReference")
+		badRef := ""
+		allInstrs(put, func(ins ssa.Instruction) {
+			v, ok := ins.(ssa.Value)
+			if !ok || brT == nil || !types.Identical(v.Type(), brT) || v == refVal {
+				return
+			}
+			switch x := v.(type) {
+			case *ssa.UnOp:
+				// a load: from a local cell holding the resolver's result is fine
+				if al, ok := x.X.(*ssa.Alloc); ok {
+					for _, s := range cellStores(al) {
+						if s != refVal {
+							badRef = "a value other than the resolver's result"
+						}
+					}
+					return
+				}
+				badRef = "a block reference read from memory (" + x.X.String() + ")"
+			case *ssa.Phi:
+				for _, e := range x.Edges {
+					if e != refVal {
+						badRef = "a merged value"
+					}
+				}
+			}
+		})
+		c.Check(badRef == "" && refVal != nil, name, "reference-origin", c.Pos(resolve.Pos()), "the reference stored is the resolver's answer of this call", "the record is written with "+badRef+" instead of the block reference the resolver returned in this call")
+		// (c) checksum last
+		var sum *ssa.Call
+		allInstrs(put, func(ins ssa.Instruction) {
+			if cl, ok := ins.(*ssa.Call); ok && cl.Call.StaticCallee() != nil && cl.Call.StaticCallee().Name() == "computeChecksumForRecord" {
+				sum = cl
+			}
+		})
+		if sum == nil {
+			continue
+		}
+		recCell := rootAlloc(sum.Call.Args[0])
+		// the seed is the resolver's second result
+		seedOK := false
+		if ex, ok := stripConv(sum.Call.Args[1]).(*ssa.Extract); ok && ex.Tuple == ssa.Value(resolve) && ex.Index == 1 {
+			seedOK = true
+		}
+		c.Check(seedOK, name, "checksum-seed", c.Pos(sum.Pos()), "seeded by the epoch seed of the block the record points into", "the record checksum is not seeded with the hash seed BlockIndexToBlockReference returned for this record's block")
+		late := ""
+		allInstrs(put, func(ins ssa.Instruction) {
+			cl, ok := ins.(*ssa.Call)
+			if !ok || cl == sum || late != "" {
+				return
+			}
+			// a call that writes into the record: an argument slices / addresses the record cell, and the callee is a writer (Put*, copy)
+			writes := false
+			nm := ""
+			if bi, ok := cl.Call.Value.(*ssa.Builtin); ok {
+				nm = bi.Name()
+				writes = nm == "copy" && len(cl.Call.Args) > 0 && rootAlloc(cl.Call.Args[0]) == recCell && recCell != nil
+			} else if o := calleeObjOf(cl.Common()); o != nil {
+				nm = o.Name()
+				if len(nm) >= 3 && nm[:3] == "Put" {
+					for _, a := range cl.Call.Args {
+						if rootAlloc(a) == recCell && recCell != nil {
+							writes = true
+						}
+					}
+				}
+			}
+			if !writes {
+				return
+			}
+			// the write of the checksum itself
+			for _, a := range cl.Call.Args {
+				if stripConv(a) == ssa.Value(sum) {
+					return
+				}
+			}
+			if reachableAvoiding(sum, cl, func(ssa.Instruction) bool { return false }) {
+				late = nm
+				c.Fail(name, "checksum-last", c.Pos(cl.Pos()), "a field of the record is filled in ("+nm+") after its checksum was computed: the stored checksum does not cover that field, so the record fails validation when read back and is treated as an empty slot – the entry is lost although Put reported it as inserted")
+			}
+		})
+		if late == "" {
+			c.Pass(name, "checksum-last", c.Pos(sum.Pos()), "the checksum covers the record as it is written")
+		}
+	}
+}
+
+// ---------------------------------------------------------------------------
+// R05.7, R05.8
+
+func init() {
+	register(&Rule{
+		ID: "R05.7", Props: []string{"C05"}, Engine: "guard (SSA dominance) + provenance",
+		Text: "a touch never re-points an entry at a copy that is itself about to be evicted: in the read / existence paths of both local stores (everything except the upload method Put) every KeyLocationMap.Put whose Location was read from the KeyLocationMap in the same function – rather than returned by a put finalizer – is dominated by the false edge of the needs-refresh verdict of LocationBlobMap.Get applied to that very location",
+		Floor: 1, MustExist: true, Run: runR057,
+	})
+	register(&Rule{
+		ID: "R05.8", Props: []string{"C05", "C01"}, Engine: "path automaton (SSA)",
+		Text: "whatever cannot be found is reported missing: in FindMissing of both local stores, on every path on which a lookup (KeyLocationMap.Get / getLeastSpecificLookupEntry) failed with NOT_FOUND, the digest is added to the set of missing objects before the next lookup or the final answer (also in the second, refreshing scan: an object that vanished between the scans must not be reported present)",
+		Floor: 4, MustExist: true, Run: runR058,
+	})
+}
+
+func localStoreMethods(c *Ctx) []*ssa.Function {
+	var out []*ssa.Function
+	for _, typ := range []string{"flatBlobAccess", "hierarchicalCASBlobAccess"} {
+		T := c.LookupType(localRel, typ)
+		if T == nil {
+			continue
+		}
+		for _, f := range c.pkgFuncs(localRel) {
+			if f.Signature.Recv() == nil {
+				continue
+			}
+			rt := f.Signature.Recv().Type()
+			if p, ok := rt.(*types.Pointer); ok {
+				rt = p.Elem()
+			}
+			if types.Identical(rt, T) {
+				out = append(out, f)
+			}
+		}
+	}
+	sortFuncs(out)
+	return out
+}
+
+func runR057(c *Ctx) {
+	n := 0
+	for _, tf := range localStoreMethods(c) {
+		if tf.Name() == "Put" {
+			continue
+		}
+		withAnon(tf, func(g *ssa.Function) {
+			allInstrs(g, func(ins ssa.Instruction) {
+				cl, ok := ins.(*ssa.Call)
+				if !ok || !cl.Call.IsInvoke() || cl.Call.Method.Name() != "Put" || recvFieldLoadName(g, cl.Call.Value) != "keyLocationMap" {
+					return
+				}
+				loc := cl.Call.Args[1]
+				// is the location the very value KeyLocationMap.Get returned in this
+				// function (an entry re-pointed at an existing copy – not a new
+				// Location composed for a slice or returned by a finalizer)?
+				var fromGet *ssa.Call
+				if ex, ok := stripConv(loc).(*ssa.Extract); ok && ex.Index == 0 {
+					if xc, ok := ex.Tuple.(*ssa.Call); ok && xc.Call.IsInvoke() && xc.Call.Method.Name() == "Get" {
+						if f := fieldOf(xc.Call.Value); f != nil && f.Name() == "keyLocationMap" {
+							fromGet = xc
+						}
+					}
+				}
+				if fromGet == nil {
+					return
+				}
+				n++
+				// dominated by !needsRefresh of locationBlobMap.Get(loc)
+				ok2 := false
+				edgeFacts(cl.Block(), func(cond ssa.Value, val bool) bool {
+					cnd, v := cond, val
+					for {
+						if u, ok := cnd.(*ssa.UnOp); ok && u.Op == token.NOT {
+							cnd, v = u.X, !v
+							continue
+						}
+						break
+					}
+					ex, ok := cnd.(*ssa.Extract)
+					if !ok || ex.Index != 1 || v {
+						return true
+					}
+					gc, ok := ex.Tuple.(*ssa.Call)
+					if !ok || !gc.Call.IsInvoke() || gc.Call.Method.Name() != "Get" {
+						return true
+					}
+					if f := fieldOf(gc.Call.Value); f == nil || f.Name() != "locationBlobMap" {
+						return true
+					}
+					if gc.Call.Args[0] == loc || sameSource(gc.Call.Args[0], loc) {
+						ok2 = true
+						return false
+					}
+					return true
+				})
+				c.Check(ok2, FuncName(g), "repoint-only-at-fresh-copy", c.Pos(cl.Pos()), "the entry is re-pointed only at a copy that does not need a refresh itself", "a lookup entry is re-pointed at a location read from the index without that copy having been found not to need a refresh: the read / existence check reports the object present, no new copy is written, and the object disappears after fewer than old_blocks+1 further allocations")
+			})
+		})
+	}
+	if n == 0 {
+		c.Fail("local", "repoint-only-at-fresh-copy", "-", "no entry synchronisation from an existing copy found (syncFromCanonicalEntry changed shape?)")
+	}
+}
+
+func runR058(c *Ctx) {
+	for _, typ := range []string{"flatBlobAccess", "hierarchicalCASBlobAccess"} {
+		fn := c.Method(localRel, typ, "FindMissing")
+		if fn == nil {
+			c.Broken("%s.FindMissing not found", typ)
+			continue
+		}
+		name := FuncName(fn)
+		// lookups: invoke KeyLocationMap.Get on the receiver's map, or the own helper getLeastSpecificLookupEntry
+		isLookup := func(cl *ssa.Call) bool {
+			if cl.Call.IsInvoke() && cl.Call.Method.Name() == "Get" {
+				f := fieldOf(cl.Call.Value)
+				return f != nil && f.Name() == "keyLocationMap"
+			}
+			if sc := cl.Call.StaticCallee(); sc != nil && sc.Name() == "getLeastSpecificLookupEntry" {
+				return true
+			}
+			return false
+		}
+		var lookups []*ssa.Call
+		allInstrs(fn, func(ins ssa.Instruction) {
+			if cl, ok := ins.(*ssa.Call); ok && isLookup(cl) {
+				lookups = append(lookups, cl)
+			}
+		})
+		isNotFoundTest := func(cond ssa.Value, val bool) (lk *ssa.Call, isNF bool, ok bool) {
+			cnd, v := cond, val
+			for {
+				if u, isU := cnd.(*ssa.UnOp); isU && u.Op == token.NOT {
+					cnd, v = u.X, !v
+					continue
+				}
+				break
+			}
+			bo, isB := cnd.(*ssa.BinOp)
+			if !isB || (bo.Op != token.EQL && bo.Op != token.NEQ) {
+				return nil, false, false
+			}
+			var code *ssa.Call
+			var k ssa.Value
+			if x, isC := bo.X.(*ssa.Call); isC {
+				code, k = x, bo.Y
+			} else if y, isC := bo.Y.(*ssa.Call); isC {
+				code, k = y, bo.X
+			}
+			if code == nil || !isPkgFuncCall(code.Common(), "google.golang.org/grpc/status", "Code") {
+				return nil, false, false
+			}
+			if kc, isK := constInt(stripConv(k)); !isK || kc != 5 {
+				return nil, false, false
+			}
+			for _, l := range lookups {
+				if isErrResultOf(code.Call.Args[0], l) {
+					return l, (bo.Op == token.EQL) == v, true
+				}
+			}
+			return nil, false, false
+		}
+		for li, l := range lookups {
+			lk := l
+			bad := ""
+			var badPos token.Pos
+			hasNF := false
+			// 0 neutral; 1 this lookup said NOT_FOUND and the digest was not yet added
+			explorePaths(&pathSpec{Fn: fn, Init: 0,
+				Step: func(st int, ev pathEvent) int {
+					if ev.Ins != nil {
+						if cl, ok := ev.Ins.(*ssa.Call); ok {
+							if cl == lk || (st == 1 && isLookup(cl)) {
+								if st == 1 && bad == "" {
+									bad, badPos = "the next lookup starts", cl.Pos()
+								}
+								return 0
+							}
+							if o := calleeObjOf(cl.Common()); o != nil && o.Name() == "Add" && st == 1 {
+								if n := recvNamed(o); n != nil && n.Obj().Name() == "SetBuilder" {
+									return 0
+								}
+							}
+						}
+						return st
+					}
+					if l2, nf, ok := isNotFoundTest(ev.Cond, ev.Val); ok && l2 == lk {
+						if nf {
+							hasNF = true
+							return 1
+						}
+						return 0
+					}
+					return st
+				},
+				AtReturn: func(st int, r *ssa.Return, _ map[int]bool) {
+					if st == 1 && bad == "" && isNilConst(returnedValue(r, len(r.Results)-1)) {
+						bad, badPos = "FindMissing answers", r.Pos()
+					}
+				}})
+			site := fmt.Sprintf("lookup-%d", li)
+			if !hasNF {
+				// a lookup whose NOT_FOUND is not distinguished: errors are returned as such (checked by R05.1) – nothing to decide here
+				c.PassTrivial(name, "missing-reported "+site, c.Pos(l.Pos()), "NOT_FOUND of this lookup is not treated specially")
+				continue
+			}
+			c.Check(bad == "", name, "missing-reported "+site, c.Pos(func() token.Pos {
+				if bad != "" {
+					return badPos
+				}
+				return l.Pos()
+			}()), "a NOT_FOUND lookup adds the digest to the missing set", "on a path on which this lookup said NOT_FOUND, "+bad+" without the digest having been added to the missing set: an object that is gone (for instance rotated out between the two scans) is reported present")
+		}
+	}
+}
+
+// ---------------------------------------------------------------------------
+// R02.9
+
+func init() {
+	register(&Rule{
+		ID: "R02.9", Props: []string{"C02", "C03"}, Engine: "difference-bound analysis (SSA)",
+		Text: "no epoch that is not synchronised reaches the state file: in PersistentBlockList.GetPersistentState every re-slice of epochHashSeeds that is handed to a BlockState ends at an index that is proven – from the loop condition and the clamp – to be at most synchronizedEpochs (hash seeds of later epochs would let records of unsynchronised, possibly lost data validate after a crash)",
+		Floor: 1, MustExist: true, Run: runR029,
+	})
+}
+
+func runR029(c *Ctx) {
+	fn := c.Method(localRel, "PersistentBlockList", "GetPersistentState")
+	if fn == nil {
+		c.Broken("PersistentBlockList.GetPersistentState not found")
+		return
+	}
+	bp := newBoundsProver(c, localRel)
+	name := FuncName(fn)
+	n := 0
+	allInstrs(fn, func(ins ssa.Instruction) {
+		sl, ok := ins.(*ssa.Slice)
+		if !ok {
+			return
+		}
+		f, base := loadedField(sl.X)
+		if f == nil || f.Name() != "epochHashSeeds" || !isReceiverValue(fn, base) {
+			return
+		}
+		n++
+		if sl.High == nil {
+			c.Fail(name, "epochs-clamped", c.Pos(sl.Pos()), "the epoch seeds are handed out up to the end of the list, including epochs that are not synchronised")
+			return
+		}
+		// find a load of synchronizedEpochs to compare with
+		var sync ssa.Value
+		allInstrs(fn, func(i2 ssa.Instruction) {
+			if v, ok := i2.(ssa.Value); ok && sync == nil {
+				if f2, b2 := loadedField(v); f2 != nil && f2.Name() == "synchronizedEpochs" && isReceiverValue(fn, b2) {
+					sync = v
+				}
+			}
+		})
+		if sync == nil {
+			c.Fail(name, "epochs-clamped", c.Pos(sl.Pos()), "GetPersistentState does not consult synchronizedEpochs")
+			return
+		}
+		hi, sy := bp.norm(sl.High), bp.norm(sync)
+		ok = bp.prove(hi.a, sy.a, sy.k-hi.k, bp.factsAt(sl.Block()), map[string]int64{})
+		c.Check(ok, name, "epochs-clamped", c.Pos(sl.Pos()), "the range ends at or before synchronizedEpochs", "the range of epoch hash seeds written for a block is not proven to end at or before synchronizedEpochs: the seed of an epoch whose data was not yet flushed reaches the state file, so after a crash index records of lost uploads validate and the object is served from whatever is later written to that place")
+	})
+	if n == 0 {
+		c.Broken("GetPersistentState: no re-slice of epochHashSeeds found")
+	}
+}
+
+// ---------------------------------------------------------------------------
+// R04.6
+
+func init() {
+	register(&Rule{
+		ID: "R04.6", Props: []string{"C04", "C02", "C01"}, Engine: "path automaton (SSA)",
+		Text: "a region that is handed out leaves the free list: in blockDeviceBackedBlockAllocator.NewBlock and NewBlockAtLocation every path that creates a block object (newBlockObject) has first stored the free list re-sliced to one element less (freeOffsets[1:] or freeOffsets[:len-1]); a list that keeps its length still offers the region – or a duplicate of another one – to a later allocation while the first block is live",
+		Floor: 2, MustExist: true, Run: runR046,
+	})
+}
+
+func runR046(c *Ctx) {
+	for _, m := range []string{"NewBlock", "NewBlockAtLocation"} {
+		fn := c.Method(localRel, "blockDeviceBackedBlockAllocator", m)
+		if fn == nil {
+			c.Broken("blockDeviceBackedBlockAllocator.%s not found", m)
+			continue
+		}
+		name := FuncName(fn)
+		isFree := func(v ssa.Value) bool {
+			f, base := loadedField(v)
+			return f != nil && f.Name() == "freeOffsets" && isReceiverValue(fn, base)
+		}
+		shrinks := func(st *ssa.Store) bool {
+			if f := fieldOf(st.Addr); f == nil || f.Name() != "freeOffsets" {
+				return false
+			}
+			sl, ok := st.Val.(*ssa.Slice)
+			if !ok || !isFree(sl.X) {
+				return false
+			}
+			if sl.Low != nil && sl.High == nil {
+				k, isK := constInt(sl.Low)
+				return isK && k == 1
+			}
+			if sl.High != nil && (sl.Low == nil || func() bool { k, ok := constInt(sl.Low); return ok && k == 0 }()) {
+				if bo, ok := sl.High.(*ssa.BinOp); ok && bo.Op == token.SUB {
+					k, isK := constInt(bo.Y)
+					if cl, isC := bo.X.(*ssa.Call); isC && isK && k == 1 {
+						if bi, ok := cl.Call.Value.(*ssa.Builtin); ok && bi.Name() == "len" && isFree(cl.Call.Args[0]) {
+							return true
+						}
+					}
+				}
+			}
+			return false
+		}
+		bad := ""
+		var badPos token.Pos
+		nNew := 0
+		explorePaths(&pathSpec{Fn: fn, Init: 0,
+			Step: func(st int, ev pathEvent) int {
+				if ev.Ins == nil {
+					return st
+				}
+				if s, ok := ev.Ins.(*ssa.Store); ok && shrinks(s) {
+					return 1
+				}
+				if cc := callOf(ev.Ins); cc != nil && cc.StaticCallee() != nil && cc.StaticCallee().Name() == "newBlockObject" {
+					nNew++
+					if st == 0 && bad == "" {
+						bad, badPos = "a block object is created for a region that was not removed from the free list", ev.Ins.Pos()
+					}
+				}
+				return st
+			}})
+		if nNew == 0 {
+			c.Fail(name, "leaves-free-list", c.Pos(fn.Pos()), "no block object is created")
+			continue
+		}
+		c.Check(bad == "", name, "leaves-free-list", c.Pos(func() token.Pos {
+			if bad != "" {
+				return badPos
+			}
+			return fn.Pos()
+		}()), "the free list shrinks by one before the region is handed out", bad+": a later allocation hands the same device region (or a duplicated neighbour) to a second block, and two live blocks overwrite each other's objects")
+	}
+}
+
+// ---------------------------------------------------------------------------
+// R01.9, R01.10
+
+func init() {
+	register(&Rule{
+		ID: "R01.9", Props: []string{"C01", "C04"}, Engine: "origin analysis (SSA)",
+		Text: "in-memory blocks never share memory: inMemoryBlock.data is only ever initialised with a slice allocated (make) for that block in the same function, and the memory of a block is never stored into allocator or package state (appended to a list, kept in a field or a global) – readers of an in-memory block hold plain sub-slices of its memory without a reference count, so memory that is handed out again is overwritten under them without any error",
+		Floor: 1, MustExist: true, Run: runR019,
+	})
+	register(&Rule{
+		ID: "R01.10", Props: []string{"C01"}, Engine: "loop-invariant edge facts (SSA)",
+		Text: "one shared-sector image per physical sector: in blockDeviceBackedBlock.Put the existing shared-sector image is kept for the next object only on an edge where it is non-nil and the allocation did not advance the block's sector cursor (sector count <= 0); whenever the allocation ends in a later sector a new image is created – otherwise the images of the object's first and last sector are one buffer and flushing one sector overwrites the other",
+		Floor: 1, MustExist: true, Run: runR0110,
+	})
+}
+
+func runR019(c *Ctx) {
+	T := c.LookupType(localRel, "inMemoryBlock")
+	if T == nil {
+		c.Broken("inMemoryBlock not found")
+		return
+	}
+	fns := c.pkgFuncs(localRel)
+	nInit := 0
+	for _, fs := range fieldStoresIn(fns, T, "data") {
+		nInit++
+		_, fresh := stripConv(fs.st.Val).(*ssa.MakeSlice)
+		c.Check(fresh, FuncName(fs.fn), "fresh-memory", c.Pos(fs.st.Pos()), "allocated for this block", "the memory of an in-memory block is not allocated for that block (it is taken from somewhere else, e.g. a list of released blocks): readers that still hold sub-slices of the previous owner's data silently observe the new owner's bytes")
+	}
+	if nInit == 0 {
+		c.Fail("local", "fresh-memory", "-", "inMemoryBlock.data is never initialised")
+	}
+	// no escape of block memory into longer-lived state
+	for _, f := range fns {
+		withAnon(f, func(g *ssa.Function) {
+			allInstrs(g, func(ins ssa.Instruction) {
+				v, ok := ins.(ssa.Value)
+				if !ok {
+					return
+				}
+				fld, base := loadedField(v)
+				if fld == nil || fld.Name() != "data" || v.Referrers() == nil {
+					return
+				}
+				bt := base.Type()
+				if p, ok := bt.Underlying().(*types.Pointer); ok {
+					bt = p.Elem()
+				}
+				if !types.Identical(bt, T) {
+					return
+				}
+				for _, r := range *v.Referrers() {
+					esc := ""
+					switch x := r.(type) {
+					case *ssa.Store:
+						if x.Val == v {
+							switch x.Addr.(type) {
+							case *ssa.FieldAddr, *ssa.IndexAddr, *ssa.Global:
+								esc = "stored into longer-lived state"
+							}
+							if fa, ok := x.Addr.(*ssa.FieldAddr); ok {
+								// a writer / reader object created for one operation is fine
+								if al := rootAlloc(fa); al != nil {
+									esc = ""
+								}
+							}
+						}
+					case *ssa.Call:
+						if _, isApp := isAppend(x); isApp {
+							esc = "appended to a list"
+						}
+					case *ssa.MapUpdate:
+						esc = "stored in a map"
+					}
+					if esc != "" {
+						c.Fail(FuncName(g), "memory-escapes", c.Pos(r.Pos()), "the memory of an in-memory block is "+esc+": it can be handed to another block while readers of this block still alias it")
+					}
+				}
+			})
+		})
+	}
+}
+
+func runR0110(c *Ctx) {
+	fn := c.Method(localRel, "blockDeviceBackedBlock", "Put")
+	if fn == nil {
+		c.Broken("blockDeviceBackedBlock.Put not found")
+		return
+	}
+	name := FuncName(fn)
+	// the sector count: the value added to the block's sector cursor
+	var sectorCount ssa.Value
+	allInstrs(fn, func(ins ssa.Instruction) {
+		st, ok := ins.(*ssa.Store)
+		if !ok {
+			return
+		}
+		if f := fieldOf(st.Addr); f == nil || f.Name() != "writeOffsetSectors" {
+			return
+		}
+		if bo, ok := st.Val.(*ssa.BinOp); ok && bo.Op == token.ADD {
+			if f, _ := loadedField(bo.X); f != nil && f.Name() == "writeOffsetSectors" {
+				sectorCount = bo.Y
+			} else if f, _ := loadedField(bo.Y); f != nil && f.Name() == "writeOffsetSectors" {
+				sectorCount = bo.X
+			}
+		}
+	})
+	if sectorCount == nil {
+		c.Broken("blockDeviceBackedBlock.Put: the advance of the sector cursor was not found")
+		return
+	}
+	// creation sites: stores of a freshly allocated sharedSector into the field
+	var creates []*ssa.Store
+	allInstrs(fn, func(ins ssa.Instruction) {
+		st, ok := ins.(*ssa.Store)
+		if !ok {
+			return
+		}
+		if f := fieldOf(st.Addr); f == nil || f.Name() != "sharedSector" {
+			return
+		}
+		if _, isAlloc := stripConv(st.Val).(*ssa.Alloc); isAlloc {
+			creates = append(creates, st)
+		}
+	})
+	if len(creates) == 0 {
+		c.Fail(name, "sector-image", c.Pos(fn.Pos()), "no shared-sector image is ever created")
+		return
+	}
+	n := 0
+	for _, cr := range creates {
+		// the join after the conditional creation
+		b := cr.Block()
+		if len(b.Succs) != 1 {
+			continue
+		}
+		join := b.Succs[0]
+		for _, p := range join.Preds {
+			if p == b {
+				continue
+			}
+			n++
+			nonNil, same := false, false
+			edgeFactsOn(p, join, func(cond ssa.Value, val bool) bool {
+				if x, nilWhenTrue, ok := nilTest(func() ssa.Value {
+					cc := cond
+					for {
+						if u, ok := cc.(*ssa.UnOp); ok && u.Op == token.NOT {
+							cc = u.X
+							continue
+						}
+						return cc
+					}
+				}()); ok {
+					neg := false
+					for cc := cond; ; {
+						if u, ok := cc.(*ssa.UnOp); ok && u.Op == token.NOT {
+							neg, cc = !neg, u.X
+							continue
+						}
+						break
+					}
+					if f, _ := loadedField(x); f != nil && f.Name() == "sharedSector" && (nilWhenTrue != (val != neg)) {
+						nonNil = true
+					}
+				}
+				if op, x, y, ok := normCmp(cond, val); ok {
+					if ub, ok := cmpUpperBound(op, x, y, func(v ssa.Value) bool { return v == sectorCount }); ok && ub <= 0 {
+						same = true
+					}
+				}
+				return true
+			})
+			c.Check(nonNil && same, name, "sector-image", c.Pos(cr.Pos()), "the old image is kept only when it exists and the allocation stays within its sector", "the existing shared-sector image can be kept although "+map[bool]string{true: "it does not exist", false: "the allocation ends in a later sector than it started in"}[!nonNil]+": the object's first and last sector then share one buffer, and flushing one of them writes the other's bytes over an already committed neighbour")
+		}
+	}
+	if n == 0 {
+		c.Fail(name, "sector-image", c.Pos(creates[0].Pos()), "the creation of a new shared-sector image is not conditional in the expected way; the rule cannot establish when the old image is kept")
+	}
+}
+
+// ---------------------------------------------------------------------------
+// R08.3, R03.4
+
+func init() {
+	register(&Rule{
+		ID: "R08.3", Props: []string{"C08"}, Engine: "guard (SSA dominance)",
+		Text: "condemned blocks leave before the list is looked at: in OldCurrentNewLocationBlobMap.findBlockWithSpace every BlockList.PushBack and BlockList.HasSpace call is only reachable through the exit edge of the loop that releases blocks while totalBlocksReleased < totalBlocksToBeReleased (so the layout counters and the list agree again before blocks are added or asked for space; otherwise a store whose newest block was condemned ends up with an empty list and panics on the next upload)",
+		Floor: 3, MustExist: true, Run: runR083,
+	})
+	register(&Rule{
+		ID: "R03.4", Props: []string{"C03", "C05"}, Engine: "guard (SSA dominance), sibling agreement",
+		Text: "one policy decides the layout: in OldCurrentNewLocationBlobMap (constructor and findBlockWithSpace alike) the count of new blocks is incremented only on the true edge of the growth policy's ShouldGrowNewBlocks, and the count of current blocks only on the true edge of ShouldGrowCurrentBlocks or as the transfer of an excess new block (same block of code decrements the new count); restored blocks that the policy would keep are therefore not pushed into the old group and released at start-up",
+		Floor: 4, MustExist: true, Run: runR034,
+	})
+}
+
+func runR083(c *Ctx) {
+	fn := c.Method(localRel, "OldCurrentNewLocationBlobMap", "findBlockWithSpace")
+	if fn == nil {
+		c.Broken("OldCurrentNewLocationBlobMap.findBlockWithSpace not found")
+		return
+	}
+	name := FuncName(fn)
+	n := 0
+	allInstrs(fn, func(ins ssa.Instruction) {
+		cl, ok := ins.(*ssa.Call)
+		if !ok || !cl.Call.IsInvoke() || (cl.Call.Method.Name() != "PushBack" && cl.Call.Method.Name() != "HasSpace") {
+			return
+		}
+		if f, _ := loadedField(cl.Call.Value); f == nil || f.Name() != "blockList" {
+			return
+		}
+		n++
+		released := func(op token.Token, x, y ssa.Value) bool {
+			f, _ := loadedField(x)
+			return op == token.GEQ && f != nil && f.Name() == "totalBlocksReleased"
+		}
+		ok = dominatedByCmpDepth(cl.Block(), released, 2)
+		if !ok {
+			// the release loop may live in an own helper method that is called first
+			allInstrs(fn, func(i2 ssa.Instruction) {
+				hc, isC := i2.(*ssa.Call)
+				if !isC || ok {
+					return
+				}
+				h := inlineOwnMethods(hc)
+				if h == nil || !instrDominates(hc, cl) {
+					return
+				}
+				all := len(returnsOf(h)) > 0
+				for _, r := range returnsOf(h) {
+					if !dominatedByCmpDepth(r.Block(), released, 2) {
+						all = false
+					}
+				}
+				if all {
+					ok = true
+				}
+			})
+		}
+		c.Check(ok, name, "release-first "+cl.Call.Method.Name(), c.Pos(cl.Pos()), "reached only after all condemned blocks were released", "BlockList."+cl.Call.Method.Name()+" can be reached before the blocks condemned because of corruption were released: the layout counters are adjusted afterwards, so the list can end up shorter than the counters say (after corruption in the newest block: empty) and the next upload indexes past its end")
+	})
+	if n == 0 {
+		c.Fail(name, "release-first", c.Pos(fn.Pos()), "findBlockWithSpace neither grows nor inspects the block list")
+	}
+}
+
+func runR034(c *Ctx) {
+	T := c.LookupType(localRel, "OldCurrentNewLocationBlobMap")
+	if T == nil {
+		c.Broken("OldCurrentNewLocationBlobMap not found")
+		return
+	}
+	onPolicyEdge := func(b *ssa.BasicBlock, meth string) bool {
+		found := false
+		edgeFacts(b, func(cond ssa.Value, val bool) bool {
+			cnd, v := cond, val
+			for {
+				if u, ok := cnd.(*ssa.UnOp); ok && u.Op == token.NOT {
+					cnd, v = u.X, !v
+					continue
+				}
+				break
+			}
+			if cl, ok := cnd.(*ssa.Call); ok && v && cl.Call.IsInvoke() && cl.Call.Method.Name() == meth {
+				found = true
+				return false
+			}
+			return true
+		})
+		return found
+	}
+	n := 0
+	for _, fld := range []string{"newBlocks", "currentBlocks"} {
+		for _, fs := range fieldStoresIn(c.pkgFuncs(localRel), T, fld) {
+			bo, ok := fs.st.Val.(*ssa.BinOp)
+			if !ok || bo.Op != token.ADD {
+				continue // decrements, resets
+			}
+			if k, isK := constInt(bo.Y); !isK || k <= 0 {
+				continue
+			}
+			n++
+			meth := "ShouldGrowNewBlocks"
+			if fld == "currentBlocks" {
+				meth = "ShouldGrowCurrentBlocks"
+			}
+			ok = onPolicyEdge(fs.st.Block(), meth)
+			if !ok && fld == "currentBlocks" {
+				// transfer of an excess new block: the same block decrements newBlocks
+				for _, i2 := range fs.st.Block().Instrs {
+					if s2, isS := i2.(*ssa.Store); isS {
+						if f2 := fieldOf(s2.Addr); f2 != nil && f2.Name() == "newBlocks" {
+							if b2, isB := s2.Val.(*ssa.BinOp); isB && b2.Op == token.SUB {
+								ok = true
+							}
+						}
+					}
+				}
+			}
+			c.Check(ok, FuncName(fs.fn), "policy-decides "+fld, c.Pos(fs.st.Pos()), "incremented on the growth policy's say-so", "the number of "+map[string]string{"newBlocks": "new", "currentBlocks": "current"}[fld]+" blocks grows without the growth policy ("+meth+") having been asked: start-up and steady state disagree on the layout, so blocks restored after a restart are classified as old and released (their acknowledged contents are gone) or the layout grows beyond what the policy allows")
+		}
+	}
+	if n == 0 {
+		c.Fail("OldCurrentNewLocationBlobMap", "policy-decides", "-", "the layout counters are never incremented")
 	}
 }
